@@ -61,7 +61,7 @@ pub fn exec_op(op: &Op, handles: &mut Handles) -> String {
     let get = |handles: &Handles, j: usize| handles.get(j).cloned().flatten();
     match op {
         Op::Parse { kind, form, text, compile, .. } => match make_handle(*kind, *form, text, *compile) {
-            Ok(h) => format!("ok|{}|eval0={}", h.inspect(), h.eval(0, 1, 0)),
+            Ok(h) => format!("ok|{}|eval0={}", h.inspect_full(), h.eval(0, 1, 0)),
             Err(m) => format!("err:{m}"),
         },
         Op::EvalStr { text } => eval_str_obs(text),
@@ -127,7 +127,7 @@ pub fn parse_shared(w: &Workload) -> Handles {
     w.shared
         .iter()
         .map(|s| {
-            catch_unwind(AssertUnwindSafe(|| make_handle(s.kind, s.form, &s.text, true).ok()))
+            catch_unwind(AssertUnwindSafe(|| make_handle(s.kind, s.form, &s.text, s.compile).ok()))
                 .unwrap_or(None)
         })
         .collect()
@@ -147,7 +147,7 @@ pub fn reference(w: &Workload) -> Vec<Vec<String>> {
                             let mut hs: Handles = vec![None; w.shared.len()];
                             let s = &w.shared[j];
                             hs[j] = catch_unwind(AssertUnwindSafe(|| {
-                                make_handle(s.kind, s.form, &s.text, true).ok()
+                                make_handle(s.kind, s.form, &s.text, s.compile).ok()
                             }))
                             .unwrap_or(None);
                             hs
